@@ -7,6 +7,7 @@ import Driver.ArgStore
 import Driver.Graph
 import Driver.Errors
 import Driver.Partial
+import Driver.Eq
 open Lean Driver
 
 def dispatch (req : Json) : R Json := do
@@ -15,6 +16,7 @@ def dispatch (req : Json) : R Json := do
   | "argstore" => Driver.ArgStore.handle req
   | "graph" => Driver.Graph.handle req
   | "partial" => Driver.Partial.handle req
+  | "eq" => Driver.Eq.handle req
   | "guard" => Driver.Errors.handleGuard req
   | "decorate" => Driver.Errors.handleDecorate req
   | _ => throw "bad-op"
